@@ -205,6 +205,9 @@ fn gen_xb(r: &mut StdRng, i: u64, thorough: bool) -> Src {
         1 => (r.gen_range(1..=100), pick(r, &[1, 2, 25])),
         2 => (pick(r, ws), r.gen_range(1..=30)),
         3 if i % 120 == 3 => (4096, if thorough { 25 } else { 2 }),
+        // widths around the values other layers of the loader treat specially (SAUCE clamps sizes above 1000, 255 / 256 / 510 / 512
+        // are field-width boundaries)
+        5 if i % 24 == 5 => (pick(r, &[254, 255, 256, 257, 510, 512, 999, 1000, 1001, 1200, 2048]), pick(r, &[1, 2, 3])),
         4 if i % 120 == 4 => (r.gen_range(1..=6), 200),
         _ => (r.gen_range(1..=40), r.gen_range(1..=24)),
     };
